@@ -508,8 +508,13 @@ class Beam(_Simu):
 
         center = (rho_e_p * area_e_pg * wJ_e_pg * coordo_e_p / mass).sum(axis=(0, 1))
 
-        if not isinstance(self.rho, np.ndarray):
-            diff = np.linalg.norm(center - mesh.center) / np.linalg.norm(center)
+        areas = [beam.area for beam in self.structure.beams]
+        if not isinstance(self.rho, np.ndarray) and np.ptp(areas) <= 1e-12 * max(areas):
+            # homogeneous density and a single cross-section area: the center of mass is the centroid of the mesh.
+            # The error is measured against the magnitude of the coordinates (not against
+            # the distance between the center and the origin, which can be zero).
+            scale = np.abs(mesh.coord).max()
+            diff = np.linalg.norm(center - mesh.center) / scale
             assert diff < 1e-12
 
         return center
